@@ -812,7 +812,10 @@ class LogicalLinkController(object):
             raise err.Error(errno.EOPNOTSUPP)
         while True:
             client = socket.accept()
-            self.sap[client.addr].insert_socket(client)
+            sap = self.sap[client.addr]
+            if sap is None:
+                raise err.Error(errno.EPIPE)  # link terminated meanwhile
+            sap.insert_socket(client)
             log.debug("new data link connection ({0} <=== {1})"
                       .format(client.addr, client.peer))
             if client.send_miu > self.cfg['send-miu']:
